@@ -471,6 +471,12 @@ fn ex_ed25519(n: &mut Net, out: &mut RunOut, tier: Tier) {
     };
     out.ev(format_args!(" verify -> {:?}", v));
     yesno(out, "ed25519", v == Some(true));
+    // the same key built from a decoded point (constructor of its own), special and low-order points included
+    if let Some(Some(pt)) = g!(out, "call.ed25519.Point_decode", hex_abbrev(&pk2), crrl::ed25519::Point::decode(&pk2)) {
+        let pk3 = PublicKey::from_point(&pt);
+        let v3 = g!(out, "call.ed25519.verify_raw", format!("{} {}", hex(&sig2), hex_abbrev(&msg2)), pk3.verify_raw(&sig2, &msg2));
+        out.ev(format_args!(" from_point key {} verify_raw -> {:?}", hex(&pk3.encode()), v3));
+    }
     // truncated verification within its documented rm range
     if n.t.chance(1, 3) {
         let rm = rm_bits(n.t, tier);
@@ -606,6 +612,11 @@ fn ex_ed448(n: &mut Net, out: &mut RunOut) {
     };
     out.ev(format_args!(" verify -> {:?}", v));
     yesno(out, "ed448", v == Some(true));
+    if let Some(Some(pt)) = g!(out, "call.ed448.Point_decode", hex_abbrev(&pk2), crrl::ed448::Point::decode(&pk2)) {
+        let pk3 = PublicKey::from_point(&pt);
+        let v3 = g!(out, "call.ed448.verify_raw", format!("{} {}", hex(&sig2), hex_abbrev(&msg2)), pk3.verify_raw(&sig2, &msg2));
+        out.ev(format_args!(" from_point key {} verify_raw -> {:?}", hex(&pk3.encode()), v3));
+    }
 }
 
 fn hash_value(n: &mut Net) -> Vec<u8> {
@@ -1030,6 +1041,22 @@ macro_rules! ex_schnorr {
                 _ => {
                     out.ev(format_args!(" pk refused"));
                     yesno(out, "pk", false);
+                }
+            }
+            // keys built through the constructors (documented domain: non-neutral point, non-zero scalar)
+            if let Some(Some(pt)) = g!(out, concat!("call.", $name, ".Point_decode"), hex_abbrev(&pk2), Point::decode(&pk2)) {
+                if pt.isneutral() == 0 {
+                    let pk3 = PublicKey::from_point(&pt);
+                    let v3 = g!(out, concat!("call.", $name, ".verify"), format!("{} {}", hex(&sig2), hex_abbrev(&data2)), pk3.verify(&sig2, hn, &data2));
+                    out.ev(format_args!(" from_point key {} verify -> {:?}", hex(&pk3.encode()), v3));
+                }
+            }
+            {
+                let sb = n.structured(out, &ska.encode(), &[(32, false)], &bd);
+                let sc = Scalar::decode_reduce(&sb);
+                if sc.iszero() == 0 {
+                    let k3 = PrivateKey::from_scalar(&sc);
+                    out.ev(format_args!(" from_scalar key -> public {}", hex(&k3.public_key.encode())));
                 }
             }
             // the adversary who picks its key after seeing (c, s): Q = (s/c')*B makes s*B - c'*Q the neutral point
